@@ -100,6 +100,8 @@ impl Sim {
                 quiescing: false,
                 frozen_hash: None,
                 frozen_at_step: None,
+                comp_pending_blocks: Vec::new(),
+                catchup: None,
                 op_kind: "boot",
                 step_delivers_only_nontrampoline: false,
                 step_delivered_calls: Vec::new(),
@@ -213,13 +215,24 @@ impl Sim {
         self.w.main_result = None;
         self.w.plugin_up = true;
         self.or.on_boot(&self.w);
-        tokio::spawn(async {
-            let r = crate::main().await;
-            seam::push_event(PluginEvent::MainReturned(
-                r.map_err(|e| format!("{:#}", e)),
-            ));
-        });
-        self.boot().await;
+        let mode = self.w.cfg.mode.clone();
+        match mode.as_str() {
+            "process" => {
+                tokio::spawn(async {
+                    let r = crate::main().await;
+                    seam::push_event(PluginEvent::MainReturned(
+                        r.map_err(|e| format!("{:#}", e)),
+                    ));
+                });
+                self.boot().await;
+                self.or.on_boot_done(&self.w);
+            }
+            other => {
+                self.spawn_component(other);
+                self.settle().await;
+                self.process_events();
+            }
+        }
 
         loop {
             if self.w.step >= self.w.cfg.max_ops as u64 + 400 {
@@ -254,6 +267,11 @@ impl Sim {
             self.execute(&op).await;
             self.settle().await;
             self.process_events();
+            if self.w.cfg.mode == "watcher" {
+                seam::comp_send("query", 0);
+                self.settle().await;
+                self.process_events();
+            }
             self.or.end_of_step(&self.w);
             self.record_abstract();
             if self.should_stop() {
@@ -318,6 +336,132 @@ impl Sim {
         }
     }
 
+    /// E2: run one real component directly on the simulated RPC seam.
+    fn spawn_component(&mut self, mode: &str) {
+        use crate::payment_provider::{PayPaymentProvider, PaymentProvider, PaymentRequest};
+        use crate::rpc::Rpc;
+        use std::sync::Arc;
+        let p = pool();
+        let hash = p.hashes[0];
+        // Parts that exist before the call (only in the first lifetime).
+        if self.w.node.lifetime == 0 && !self.w.cfg.pre_parts.is_empty() {
+            self.w.node.pay_cmds.push(super::node::PayCmd {
+                rpc: 0,
+                hash,
+                bolt11: p.inv(0, content::InvKind::Fixed).bolt11.clone(),
+                amount_msat: p.fixed_amounts[0],
+                maxfee: 0,
+                maxdelay: 0,
+                retry_for: 0,
+                groupid: 1,
+                state: CmdState::Replied,
+                parts_created: 0,
+                lifetime: 0,
+                applied_seq: 0,
+            });
+            let states = self.w.cfg.pre_parts.clone();
+            let n = states.len();
+            for (i, st) in states.iter().enumerate() {
+                let id = self.w.node.next_part_id;
+                self.w.node.next_part_id += 1;
+                self.w.node.parts.push(super::node::Part {
+                    hash,
+                    groupid: 1,
+                    partid: if n == 1 { 0 } else { i as u64 + 1 },
+                    status: match st {
+                        0 => PartStatus::Pending,
+                        1 => PartStatus::Failed(204),
+                        _ => PartStatus::Complete,
+                    },
+                    amount_msat: 1000,
+                    fee_msat: 0,
+                    cmd: 0,
+                    id,
+                    created_seq: 0,
+                });
+            }
+        }
+        let xpay = self.w.cfg.xpay;
+        let timeout = Duration::from_secs(self.w.cfg.payment_timeout);
+        let h = secp256k1::hashes::sha256::Hash::from_byte_array(hash);
+        use secp256k1::hashes::Hash as _;
+        match mode {
+            "wait_payment" => {
+                tokio::spawn(async move {
+                    let prov = PayPaymentProvider::new(Arc::new(Rpc::new("sim".into())), timeout, xpay);
+                    let r = prov.wait_payment(h).await;
+                    let v = match r {
+                        Ok(Some(p)) => json!({"ok": true, "preimage": rf::hex(&p)}),
+                        Ok(None) => json!({"ok": true, "preimage": null}),
+                        Err(e) => json!({"ok": false, "error": format!("{:#}", e)}),
+                    };
+                    seam::push_event(PluginEvent::Component("wait_payment".into(), v));
+                });
+            }
+            "pay" => {
+                let bolt11 = p.inv(0, content::InvKind::Fixed).bolt11.clone();
+                tokio::spawn(async move {
+                    let prov = PayPaymentProvider::new(Arc::new(Rpc::new("sim".into())), timeout, xpay);
+                    let r = prov
+                        .pay(PaymentRequest {
+                            bolt11,
+                            payment_hash: h,
+                            amount_msat: None,
+                            max_fee_msat: 5000,
+                            max_cltv_delta: 100,
+                        })
+                        .await;
+                    let v = match r {
+                        Ok(p) => json!({"ok": true, "preimage": rf::hex(&p)}),
+                        Err(e) => json!({"ok": false, "error": format!("{:#}", e)}),
+                    };
+                    seam::push_event(PluginEvent::Component("pay".into(), v));
+                });
+            }
+            "watcher" => {
+                use crate::block_watcher::{BlockProvider, BlockWatcher};
+                let (ctx, mut crx) = tokio::sync::mpsc::unbounded_channel::<(String, u64)>();
+                seam::with(|c| c.comp_tx = Some(ctx));
+                tokio::spawn(async move {
+                    let mut bw = BlockWatcher::new(Arc::new(Rpc::new("sim".into())));
+                    let (_stx, srx) = tokio::sync::mpsc::channel(1);
+                    let started = bw.start(srx).await;
+                    match started {
+                        Ok(_join) => {
+                            seam::push_event(PluginEvent::Component("started".into(), json!(true)))
+                        }
+                        Err(e) => {
+                            seam::push_event(PluginEvent::Component(
+                                "start-failed".into(),
+                                json!(format!("{:#}", e)),
+                            ));
+                        }
+                    }
+                    let bw = Arc::new(bw);
+                    while let Some((cmd, arg)) = crx.recv().await {
+                        match cmd.as_str() {
+                            "new_block" => {
+                                bw.new_block(&crate::messages::BlockAdded { height: arg as u32 })
+                                    .await;
+                                seam::push_event(PluginEvent::Component(
+                                    "new_block_done".into(),
+                                    json!(arg),
+                                ));
+                            }
+                            _ => {
+                                let h = bw.current_height().await;
+                                seam::push_event(PluginEvent::Component("height".into(), json!(h)));
+                            }
+                        }
+                    }
+                    // keep the shutdown sender alive until here
+                    drop(_stx);
+                });
+            }
+            _ => {}
+        }
+    }
+
     fn should_stop(&self) -> bool {
         match self.stop_on_violation_of {
             Some(p) => self.or.violations.iter().any(|v| v.prop == p),
@@ -339,6 +483,16 @@ impl Sim {
 
     fn init_options(&self) -> Value {
         let c = &self.w.cfg;
+        if let Some(raw) = &c.raw_opts {
+            let mut m = serde_json::Map::new();
+            for (k, v) in raw {
+                m.insert(k.clone(), json!(v));
+            }
+            m.insert("trampoline-no-self-route-hints".into(), json!(c.no_self_hints));
+            m.insert("trampoline-email-subject".into(), json!("Trampoline payment failure"));
+            m.insert("trampoline-xpay".into(), json!(c.xpay));
+            return Value::Object(m);
+        }
         json!({
             "trampoline-cltv-delta": c.cltv_delta,
             "trampoline-policy-cltv-delta": c.policy_delta,
@@ -797,6 +951,15 @@ impl Sim {
                 self.stdin_released = self.stdin_written;
                 self.mark_delivered();
             }
+            Op::Comp { cmd, arg } => {
+                if cmd == "new_block" {
+                    self.w.comp_pending_blocks.push(*arg as u32);
+                }
+                seam::comp_send(cmd, *arg);
+            }
+            Op::CatchupMark => {
+                self.w.catchup = Some((self.w.node.height, self.w.now_ms));
+            }
             Op::Freeze { hash } => {
                 self.w.frozen_hash = Some(*hash as usize);
                 self.w.frozen_at_step = Some(self.w.step);
@@ -948,7 +1111,17 @@ impl Sim {
                     self.w.main_result = Some(r);
                     self.w.plugin_up = false;
                 }
-                PluginEvent::Component(_, _) => {}
+                PluginEvent::Component(label, v) => {
+                    self.log.str("component");
+                    self.log.str(&label);
+                    self.log.str(&v.to_string());
+                    note!(self, "COMPONENT {} {}", label, v);
+                    if label == "wait_payment" || label == "pay" || label == "start-failed" {
+                        self.w.main_result = Some(Ok(()));
+                        self.w.plugin_up = false;
+                    }
+                    self.or.on_component(&self.w, &label, &v);
+                }
             }
         }
         self.w.now_ms = end_ms;
